@@ -790,8 +790,9 @@ pub fn cmd_sweep_c13(args: &[String]) {
         }
     }
     // key pair derived from a password: secret = Argon2(password), public = base * secret
-    for i in 0..16u64 {
-        let pw = rng.bytes(5 + i as usize);
+    for i in 0..18u64 {
+        // passwords of every kind libsodium accepts: the empty one, a single zero byte, ordinary ones
+        let pw = match i { 16 => vec![], 17 => vec![0u8], _ => rng.bytes(5 + i as usize) };
         let salt = rng.bytes(16);
         // the key pair is the 32-byte Argon2 output whatever the configuration's hash/salt length settings are
         let hl = [32usize, 16, 33, 64, 128, 31][(i % 6) as usize];
